@@ -207,10 +207,10 @@ def run(ctx):
     import time
     T0 = time.time()
     timing = {}
+    pr = ctx.proof("theories/Props/C07.v")     # right after the tables: they are shared files
+    timing["proof"] = round(time.time() - T0, 1)
     exe = vlib.build_harness()
     timing["harness"] = round(time.time() - T0, 1)
-    pr = ctx.proof("theories/Props/C07.v")
-    timing["proof"] = round(time.time() - T0, 1)
 
     mism, order_dep, spec_fail = [], [], []
     suspected = {}
@@ -365,6 +365,8 @@ def run(ctx):
         ctx.notes.append(f"{len(order_dep)} cases whose outcome depends on HashMap iteration order (ties, D18); "
                          "implementation outcome accepted when it is one of the model's outcomes")
 
+    if not pr["ok"] or mism or spec_fail:
+        nc.require_stable_tables("proof / correspondence result")
     if spec_fail:
         f = spec_fail[0]
         ctx.violation("implementation differs from the Ink specification (Spec/ExprSpec.v): " + json.dumps(f)[:300],
